@@ -5,8 +5,7 @@
    typed by the definition it was created with, slices and pointers by element name).
    clean st o excludes exactly the situations of the listed findings: a key that is not a symbol
    (nonsymbol-key), an instance value created under another definition than its name has now / derefSet
-   between two definitions (instance-type-by-name), an array whose (nested) first element has a type without TypeCache
-   (typeless-elem-array), a target without definition (late-adoption), and
+   between two definitions (instance-type-by-name), a target without definition (late-adoption), and
    re-binding an existing variable.  Each exclusion is shown necessary by a refuted statement below. *)
 From Coq Require Import List ZArith Bool.
 Import ListNotations.
@@ -38,7 +37,7 @@ Theorem C17_keeps_creation_defn : forall st o,
 Proof. exact keeps_creation_defn. Qed.
 Print Assumptions C17_keeps_creation_defn.
 
-(* a rejected operation (error or escaped panic) leaves every instance unchanged *)
+(* a rejected operation leaves every instance unchanged *)
 Theorem C17_rejected_write_unchanged : forall st o,
   clean st o = true -> fst (step st o) <> OK -> st_store (snd (step st o)) = st_store st.
 Proof. exact rejected_write_unchanged. Qed.
@@ -56,9 +55,11 @@ Theorem C17_accepted_write_sets : forall st r id k v st',
 Proof. exact accepted_write_sets. Qed.
 Print Assumptions C17_accepted_write_sets.
 
-(* an accepted check of a clean value means conformance to the declared type (TypeCheckField vs the rule) *)
+(* an accepted check of a clean value means conformance to the declared type (TypeCheckField vs the rule);
+   wf_ty: declared types never mention the generic slice type, which no type expression denotes -
+   invb carries that for every registry entry and every instance's definition *)
 Theorem C17_check_value_conforms : forall st dt v,
-  value_clean st v = true -> check_value st dt v = VOk -> spec_conforms st v dt = true.
+  value_clean st v = true -> wf_ty dt = true -> check_value st dt v = VOk -> spec_conforms st v dt = true.
 Proof. exact check_value_conforms. Qed.
 Print Assumptions C17_check_value_conforms.
 
@@ -108,27 +109,6 @@ Proof.
   vm_compute. reflexivity.
 Qed.
 Print Assumptions C17_late_adoption_refuted.
-
-(* "a rejected update reports an error" fails on the routes without recover: the outcome is a Go panic *)
-Theorem C17_untyped_array_panics_refuted : exists h o,
-  clean (run init_state h) o = true /\ fst (step (run init_state h) o) = PANIC.
-Proof.
-  exists [Declare 0 [(0, TESlice int64_t)]; Construct 0 0 []], (Write RDot 0 (KSym 0) (VArr [VNil])).
-  split; vm_compute; reflexivity.
-Qed.
-Print Assumptions C17_untyped_array_panics_refuted.
-
-(* since b43fa74 an array whose first element is a plain hash has the generic type "[]", which the
-   empty-slice escape of TypeCheckField accepts for every slice field *)
-Theorem C17_typeless_elem_array_refuted : exists h,
-  (forall o, In o h -> match o with Write _ _ k _ => key_clean k = true | _ => True end) /\
-  invb (run init_state h) = false.
-Proof.
-  exists [Declare 0 [(0, TESlice int64_t)]; Construct 0 0 []; Write RHset 0 (KSym 0) (VArr [VHash])].
-  split; [|vm_compute; reflexivity].
-  intros o H. repeat (destruct H as [<-|H]; [simpl; auto|]). destruct H.
-Qed.
-Print Assumptions C17_typeless_elem_array_refuted.
 
 (* ---------- non-vacuity: a clean history with redeclaration in between, every route, nil, the empty
    slice, arrays, pointers, another struct's instance; rejected and accepted writes ---------- *)
